@@ -739,7 +739,7 @@ pub fn analyze(m: &Mon, sc: &Scenario, info: &PlanInfo, out: &ExecOut, twin: Opt
             // a dispatch in which an ordinary system panicked: the other systems have not all finished,
             // so no top-level thread-local system may start in it
             let ordinary_panicked = sc.panics.iter().any(|(id, _)| info.nodes[*id].kind != Kind::Tl && log.iter().any(|e| e.dispatch == 1 && is_begin(info, e) && e.sys as usize == *id));
-            if ordinary_panicked && out.results.first().map_or(false, |r| r.is_some()) {
+            if ordinary_panicked && (sc.mode == Mode::Async || out.results.first().map_or(false, |r| r.is_some())) {
                 for e in log {
                     let id = e.sys as usize;
                     if e.dispatch == 1 && e.kind == Ev::FetchBegin && info.nodes.get(id).map_or(false, |n| n.kind == Kind::Tl && n.parent.is_none()) {
